@@ -60,6 +60,9 @@ Definition is_colon (t : tok) : bool := tok_eqb t (TP [58]).
 Definition is_lbrack (t : tok) : bool := tok_eqb t (TP [91]).
 Definition is_rbrack (t : tok) : bool := tok_eqb t (TP [93]).
 Definition S_Cond := 5.
+Definition is_new (t : tok) : bool := tok_eqb t (TId [110; 101; 119]).
+Definition is_comma (t : tok) : bool := tok_eqb t (TP [44]).
+Definition S_New := 20. Definition S_Call := 21.
 Definition is_open (t : tok) : bool := tok_eqb t (TP [40]).
 Definition is_close (t : tok) : bool := tok_eqb t (TP [41]).
 
@@ -93,6 +96,15 @@ Definition right_level (o : op) : Z :=
   if is_assign o then 3
   else match o with BPow => 16 | BNullish => 8 | _ => spec_level o end.
 
+(* 13.3 Left-Hand-Side Expressions:
+     MemberExpression : PrimaryExpression | MemberExpression [ Expression ] | MemberExpression . IdentifierName
+                      | new MemberExpression Arguments
+     NewExpression    : MemberExpression | new NewExpression
+     CallExpression   : MemberExpression Arguments | CallExpression Arguments
+                      | CallExpression [ Expression ] | CallExpression . IdentifierName
+   The callee of "new" is parsed with binding strength S_Call: member accesses are taken, an
+   argument list is not (it belongs to the "new"), and no prefix operator may start it.
+   Arguments : ( ) | ( ArgumentList ,opt ), each argument an AssignmentExpression. *)
 Fixpoint parse_expr (fuel : nat) (L : Z) (ts : list tok) : option (expr * list tok) :=
   match fuel with
   | O => None
@@ -100,9 +112,25 @@ Fixpoint parse_expr (fuel : nat) (L : Z) (ts : list tok) : option (expr * list t
     match ts with
     | [] => None
     | t :: r =>
-      match prefix_op t with
+      if is_new t then
+        match parse_expr n S_Call r with
+        | Some (c, r') =>
+            match r' with
+            | p :: r'' =>
+                if is_open p then
+                  match parse_args n r'' with
+                  | Some (a, r3) => parse_suffix n L (ENew c a) S_Member r3
+                  | None => None
+                  end
+                else parse_suffix n L (ENew c ANil) S_New r'
+            | [] => parse_suffix n L (ENew c ANil) S_New r'
+            end
+        | None => None
+        end
+      else match prefix_op t with
       | Some o =>
-          match parse_expr n S_Unary r with
+          if S_New <=? L then None
+          else match parse_expr n S_Unary r with
           | Some (v, r') => if negb (is_update o) || is_target v then parse_suffix n L (EUn o v) S_Unary r' else None
           | None => None
           end
@@ -129,15 +157,24 @@ with parse_suffix (fuel : nat) (L : Z) (left : expr) (ll : Z) (ts : list tok) : 
     | t :: r =>
       if is_dot t then
         match r with
-        | TId s :: r' => if S_Member <=? ll then parse_suffix n L (EDot left s) S_Member r' else None
+        | TId s :: r' => if S_Call <=? ll then parse_suffix n L (EDot left s) S_Member r' else None
         | _ => None
         end
       else if is_lbrack t then
         (* MemberExpression [ Expression ] *)
-        if S_Member <=? ll then
+        if S_Call <=? ll then
           match parse_expr n 0 r with
           | Some (i, c :: r') => if is_rbrack c then parse_suffix n L (EIndex left i) S_Member r' else None
           | _ => None
+          end
+        else None
+      else if is_open t then
+        (* Arguments after a MemberExpression or CallExpression *)
+        if S_Call <=? L then Some (left, ts)
+        else if S_Call <=? ll then
+          match parse_args n r with
+          | Some (a, r') => parse_suffix n L (ECall left a) S_Call r'
+          | None => None
           end
         else None
       else if is_quest t then
@@ -173,6 +210,27 @@ with parse_suffix (fuel : nat) (L : Z) (left : expr) (ll : Z) (ts : list tok) : 
           end
       end
     end
+  end
+with parse_args (fuel : nat) (ts : list tok) : option (expr * list tok) :=
+  match fuel with
+  | O => None
+  | S n =>
+    match ts with
+    | [] => None
+    | t :: r =>
+      if is_close t then Some (ANil, r)
+      else match parse_expr n 3 ts with
+           | Some (e, c :: r') =>
+               if is_close c then Some (ACons e ANil, r')
+               else if is_comma c then
+                 match parse_args n r' with
+                 | Some (rest, r'') => Some (ACons e rest, r'')
+                 | None => None
+                 end
+               else None
+           | _ => None
+           end
+    end
   end.
 
 (* a whole token list is one expression *)
@@ -197,5 +255,8 @@ Fixpoint norm (e : expr) : expr :=
   | EBin o l r => if op_eqb o BComma then comma_app (norm l) (norm r) else EBin o (norm l) (norm r)
   | ECond c y n => ECond (norm c) (norm y) (norm n)
   | EIndex t i => EIndex (norm t) (norm i)
+  | ECall f a => ECall (norm f) (norm a)
+  | ENew f a => ENew (norm f) (norm a)
+  | ACons x r => ACons (norm x) (norm r)
   | _ => e
   end.
